@@ -2,7 +2,8 @@
 max_step, disabled knobs/targets monitored on every accepted iterate), C15 (truthful log)."""
 import math
 
-from ..common import rng_for, digest, tuplify
+import json as _json
+from ..common import rng_for, digest, tuplify, h64
 from ..containers import InjectedFault, SimStall
 from .gen import gen_problem, gen_call
 from .world import OWorld, OViolation, call, flags_from_string
@@ -133,17 +134,56 @@ def check_call_error(prop, where, c, exc):
                          exc=type(exc).__name__)
 
 
-def check_log_aligned(world, prop, where):
+def check_log_aligned(world, prop, where, read=True):
+    """read=False: the public log() is not called this time (a user does not read the log after every call either)"""
     log = world.raw_log()
     lens = {k: len(v) for k, v in log.items()}
     if len(set(lens.values())) != 1:
         raise OViolation(prop + ".log_ragged", "%s: the log lists have different lengths: %s" % (where, lens))
     if lens and list(lens.values())[0] == 0:
         return None          # an empty log (clear_log() whose own evaluation failed) has no row to be truthful about
+    if not read:
+        return None
+    return public_log_rows(world, prop, where)
+
+
+def public_log_rows(world, prop, where):
+    """The rows as the user sees them: Optimize.log() (a Table).  Every cell must agree with what was recorded."""
     val, exc = call(lambda: world.opt.log())
     if exc is not None:
         raise OViolation(prop + ".log_unreadable", "%s: log() raised %s: %s" % (where, type(exc).__name__, exc))
-    return val
+    tab = val
+    log = world.raw_log()
+    n = len(log["penalty"])
+    nk, nt = world.spec["nk"], world.spec["nt"]
+    rows = []
+    try:
+        if len(tab) != n:
+            raise OViolation(prop + ".log_view", "%s: log() has %d rows, %d were recorded" % (where, len(tab), n))
+        for i in range(n):
+            kn = [float(tab["vary_%d" % j][i]) for j in range(nk)]
+            tg = [float(tab["target_%d" % j][i]) for j in range(nt)]
+            kn2 = [float(x) for x in tab["vary"][i]]
+            tg2 = [float(x) for x in tab["targets"][i]]
+            row = (kn, flags_from_string(str(tab["vary_active"][i])), flags_from_string(str(tab["target_active"][i])),
+                   float(tab["penalty"][i]), tg)
+            raw = ([float(x) for x in log["knobs"][i]], flags_from_string(log["vary_active"][i]), flags_from_string(log["target_active"][i]),
+                   float(log["penalty"][i]), [float(x) for x in log["targets"][i]])
+            if not _rows_same(row, raw) or not _rows_same((kn2, row[1], row[2], row[3], tg2), raw) or str(tab["tag"][i]) != str(log["tag"][i]):
+                raise OViolation(prop + ".log_view", "%s: row %d of log() shows %s, recorded was %s" % (where, i, row, raw))
+            rows.append(row)
+    except OViolation:
+        raise
+    except Exception as e:     # a malformed table
+        raise OViolation(prop + ".log_unreadable", "%s: reading log() raised %s: %s" % (where, type(e).__name__, e))
+    return rows
+
+
+def _rows_same(a, b):
+    def eq(x, y):
+        return x == y or (x != x and y != y)
+    return all(eq(x, y) for x, y in zip(a[0], b[0])) and a[1] == b[1] and a[2] == b[2] and eq(a[3], b[3]) and \
+        all(eq(x, y) for x, y in zip(a[4], b[4])) and len(a[0]) == len(b[0]) and len(a[4]) == len(b[4])
 
 
 def check_limits(world, prop, where, rows_from=0, containers=True):
@@ -189,10 +229,9 @@ def check_reproducible(world, prop, where, exclude_rows=()):
     """reload(i) restores row i (knobs, flags) and an independent evaluation there reproduces targets and penalty.
     Destructive (every reload appends a row): call at the end of a history."""
     spec = world.spec
-    log = world.raw_log()
-    n = len(log["penalty"])
-    rows = [(list(log["knobs"][i]), flags_from_string(log["vary_active"][i]), flags_from_string(log["target_active"][i]),
-             float(log["penalty"][i]), [float(x) for x in log["targets"][i]]) for i in range(n)]
+    if len(world.raw_log()["penalty"]) == 0:
+        return 0
+    rows = public_log_rows(world, prop, where)          # the rows the user is shown
     checked = 0
     for i, (kn, vf, tf, pen, tg) in enumerate(rows):
         if i in exclude_rows:
@@ -399,7 +438,7 @@ def gen_history(ctx, run, prop, kinds, fault_p, **over):
 
 
 def hist_from_json(j):
-    return {"spec": j["spec"], "calls": [tuplify(c) if not isinstance(c[1], dict) else (c[0], dict(c[1])) for c in j["calls"]],
+    return {"spec": j["spec"], "calls": [(c[0], dict(c[1])) if (len(c) > 1 and isinstance(c[1], dict)) else tuplify(c) for c in j["calls"]],
             "faults": [tuple(f) for f in j.get("faults", [])], **{k: v for k, v in j.items() if k not in ("spec", "calls", "faults")}}
 
 
@@ -670,7 +709,7 @@ class C15:
                 if exc is not None:
                     count("call_raised:" + type(exc).__name__)
                 check_call_error(prop, where, c, exc)
-                check_log_aligned(w, prop, where)
+                check_log_aligned(w, prop, where, read=(h64("logread", _json.dumps(c, sort_keys=True)) % 3 == 0))      # decided by the call itself: stable when other calls are removed
                 n1 = len(w.raw_log()["penalty"])
                 if c[0] == "clear_log":
                     tainted = set()
